@@ -1,6 +1,5 @@
-import SR.Drv.Loop
-/-! Driver commands for C08 (stub). -/
+import SR.Drv.Sem
+/-! Driver commands for C08: `lin-run` (model), `o-ser lin`, `o-res` (oracles); see `SR/Drv/Sem.lean`. -/
 namespace SR.Drv.C08
-def handle : Drv.Handler
-  | _, _ => none
+def handle : Drv.Handler := SR.Drv.Sem.handle
 end SR.Drv.C08
